@@ -431,7 +431,7 @@ def gen_problem(t, D, feat=None, agents=0):
         for combo in itertools.product(*[objects_of(D, allobj, ty) for ty in sig]):
             if hard and t.chance(1, 3):
                 fl[(fn,) + combo] = HARD_NUMBERS[t.draw(len(HARD_NUMBERS))]
-            elif thresholds and t.chance(1, 3):
+            elif thresholds and t.chance(1, 2):
                 fl[(fn,) + combo] = thresholds[t.draw(len(thresholds))] + [0.00002, -0.00002, 0.0, 0.002, -0.002, 0.0005, -0.0005, 0.00002][t.draw(8)]
             else:
                 fl[(fn,) + combo] = t.num()
